@@ -116,6 +116,12 @@ Proof.
     rewrite (proj2 (Rltb_false (Rfmod a y) 0)) by lra. reflexivity.
 Qed.
 
+Lemma fmod_py_zero a y : y = 0 -> fmod_py Rops a y = VErr ZeroDivisionError.
+Proof.
+  intro E. unfold fmod_py. cbn [f_eqb Rops RopsC f0 f_of_Z].
+  rewrite (proj2 (Reqb_true y 0)) by assumption. reflexivity.
+Qed.
+
 (* integer part + fractional part of a non-negative real, reduced modulo a positive integer n:
    IZR (floor a mod n) + (a - floor a) = a - n * floor (a / n) *)
 Lemma int_frac_mod a n : (0 < n)%Z ->
